@@ -785,6 +785,8 @@ def r03i(ctx, rep, rule="R03i"):
         o = gc.origin(t["args"][0])
         fl = [e["n"] for e in (o[2] if len(o) > 2 else []) if isinstance(e, dict) and "f" in e]
         if o[0] == "arg" and o[1] == 1 and fl and fl[0] in struct_fields and c.path.startswith(struct_fields[fl[0]] + "::"):
+            if c.locals and c.locals[0] == "()":
+                continue      # returns nothing: it hands no roots to a marker (what it may do to the root set is R03n's business)
             labs = {"%s.%s" % (fl[0], sf) for sf in fields_read_of_self(c)}
             scopes.append((c, labs))
             for cl in facts.closures_of(c):
@@ -860,6 +862,8 @@ HEAP_INDEX_FIELDS = {
     "chunk_size": "a size, not an index",
     "free_list": "the indices of the free cells: pushed by Heap::free, popped by Heap::alloc (R03e / R12e)",
     "symbol_table": "name -> index of the interned symbol: Heap::free removes the entry of a freed symbol (R18b)",
+    "global_refs": "slot numbers of the global environment (the payloads of VCell::GlobalEnvSlot operands the marker met), not "
+                   "cell indices: read by GlobalEnvironment::release_unreferenced, cleared by the sweep (R03n)",
 }
 
 
@@ -974,6 +978,103 @@ def r03k(ctx, rep, rule="R03k"):
                      "freed and reused while this field still points at it" % (fld["name"], fld["hir"]), [heap["loc"]])
 
 
+
+def r03n(ctx, rep, rule="R03n"):
+    """a global binding is released only when nothing live can name its slot"""
+    facts, cg = ctx["facts"], ctx["cg"]
+    rep.rule(rule, "releasing a binding is sound only with the whole picture: compiled code names a global by the number of its slot "
+             "(VCell::GlobalEnvSlot), and GlobalEnvironment::release_unreferenced hands the slot of a released binding out again. "
+             "Therefore (i) the marker records the slot of every GlobalEnvSlot operand it meets (an insert into Heap.global_refs on "
+             "that arm of mark_vcell); (ii) in run_gc the release comes after every other root has been marked — slots, stack, "
+             "%acc, %ip, %ep — and before the symbols of the surviving bindings are marked and the heap is swept; (iii) the "
+             "recorded set is cleared by the sweep only, never between marking and the release; (iv) release_unreferenced "
+             "releases a binding only if its slot holds Undefined and is not in the set. A release that runs early, or on an "
+             "empty set, hands the slot of a variable that live code still refers to to another name.")
+    REL = "marwood::vm::environment::GlobalEnvironment::release_unreferenced"
+    gc = need(rep, rule, facts, RUN_GC)
+    if gc is None:
+        return
+    rel = [bb for bb, t in gc.calls() if callee(t) == REL]
+    if REL not in facts.fns or not rel:
+        # the tree does not release bindings at all: nothing to order (R12s reports the leak)
+        rep.ok(rule, rule + "|none", "run_gc releases no global binding", nontrivial=False)
+        return
+    mv = need(rep, rule, facts, MARK_VCELL)
+    # (i)
+    if mv is not None:
+        sws = disc_switches(facts, mv, "marwood::vm::vcell::VCell")
+        ins = False
+        for sw in sws:
+            reg = arm_region(mv, sw, "GlobalEnvSlot")
+            for bb, t in mv.calls():
+                if bb in reg and (callee(t) or "").endswith("HashSet::<T, S, A>::insert") and t["args"]:
+                    from .. import shapes
+                    if "global_refs" in shapes.shape(mv, t["args"][0], 3):
+                        ins = True
+        (rep.ok if ins else rep.fail)(
+            rule, rule + "|mark_vcell|records-slot", "mark_vcell records the slot of a GlobalEnvSlot operand" if ins else
+            "mark_vcell does not record the slot of a GlobalEnvSlot operand in Heap.global_refs: the set handed to "
+            "release_unreferenced misses slots that live code refers to, so their bindings are released and the slots reused", [mv.span])
+    # (ii)
+    marks = [(bb, t) for bb, t in gc.calls() if callee(t) in (MARK, MARK_VCELL)]
+    closures = [c for c in facts.closures_of(gc)]
+    before = [bb for bb, t in marks if any(gc.dominates(bb, r) and bb != r for r in rel)]
+    after = [bb for bb, t in marks if any(gc.dominates(r, bb) and bb != r for r in rel)]
+    sweeps = [bb for bb, t in gc.calls() if callee(t) == SWEEP]
+    # root enumerations done through for_each closures: the for_each call stands for the marks inside the closure
+    fe = [(bb, t) for bb, t in gc.calls() if (callee(t) or "").endswith("::for_each")]
+    fe_before = [bb for bb, t in fe if any(gc.dominates(bb, r) and bb != r for r in rel)]
+    fe_after = [bb for bb, t in fe if any(gc.dominates(r, bb) and bb != r for r in rel)]
+    nroots_before = len(before) + len(fe_before)
+    ok = nroots_before >= 5 and len(fe_after) + len(after) >= 1 and all(any(gc.dominates(r, sb) for r in rel) for sb in sweeps) and bool(sweeps)
+    (rep.ok if ok else rep.fail)(
+        rule, rule + "|run_gc|release-after-roots", "run_gc releases bindings after %d root markings and before the binding symbols are "
+        "marked and the heap is swept" % nroots_before if ok else
+        "run_gc calls release_unreferenced with only %d root marking(s) before it (five are needed: slots, stack, %%acc, %%ip, %%ep), or "
+        "not before the binding symbols are marked and the heap swept: slots named by code reachable from a root marked later are "
+        "missing from the set" % nroots_before, [gc.blocks[rel[0]]["term"]["loc"]])
+    # (iii)
+    clearers = set()
+    for p, f in facts.fns.items():
+        if f.crate != "marwood":
+            continue
+        for bb, t in f.calls():
+            c = callee(t) or ""
+            if c.endswith(("HashSet::<T, S, A>::clear", "HashSet::<T, S, A>::drain", "HashSet::<T, S, A>::retain", "HashSet::<T, S, A>::remove")) and t["args"]:
+                from .. import shapes
+                if "global_refs" in shapes.shape(f, t["args"][0], 3):
+                    clearers.add(p)
+    def early_only(c):
+        """emptied at the start of a collection, before any root is marked: as good as emptied by the previous sweep"""
+        first = [bb for bb, t in marks] + [bb for bb, t in fe]
+        if c == RUN_GC:
+            sites = [bb for bb, t in gc.calls() if (callee(t) or "").endswith(("::clear",)) and "global_refs" in __import__("mwcheck.shapes", fromlist=["shape"]).shape(gc, t["args"][0], 3)]
+        else:
+            if cg.callers(c) - {RUN_GC}:
+                return False
+            sites = [bb for bb, t in gc.calls() if callee(t) == c]
+        return bool(sites) and all(all(gc.dominates(sb, m) and sb != m for m in first) for sb in sites)
+    bad = sorted(c for c in clearers if c != SWEEP and not early_only(c))
+    emptied = SWEEP in clearers or any(early_only(c) for c in clearers)
+    (rep.ok if not bad and emptied else rep.fail)(
+        rule, rule + "|global_refs|cleared-by-sweep-only", "Heap.global_refs is emptied by the sweep (or at the very start of a collection) and nowhere in between" if not bad and emptied else
+        "Heap.global_refs is emptied by %s: emptied before the release every unbound binding looks unreferenced; never emptied, no "
+        "binding is ever released" % (", ".join(short_path(c) for c in bad) or "nothing"), [gc.span])
+    # (iv)
+    rf = facts.fns[REL]
+    cond_fns = [rf] + list(facts.closures_of(rf))
+    has_contains = any((callee(t) or "").endswith("HashSet::<T, S, A>::contains") for g in cond_fns for bb, t in g.calls())
+    has_undef = False
+    for g in cond_fns:
+        for sw in disc_switches(facts, g, "marwood::vm::vcell::VCell"):
+            if "Undefined" in sw["arms"]:
+                has_undef = True
+    okc = has_contains and has_undef
+    (rep.ok if okc else rep.fail)(
+        rule, rule + "|release_unreferenced|unbound-and-unreferenced", "a binding is released only if its slot is Undefined and absent from the set" if okc else
+        "release_unreferenced does not test both that the slot is Undefined and that the set lacks it (Undefined test: %s, contains: %s): "
+        "a defined global, or one live code refers to, loses its binding" % (has_undef, has_contains), [rf.span])
+
 def run(ctx, rep):
     r03a(ctx, rep)
     r03b(ctx, rep)
@@ -985,6 +1086,7 @@ def run(ctx, rep):
     r03i(ctx, rep)
     r03j(ctx, rep)
     r03k(ctx, rep)
+    r03n(ctx, rep)
     from . import runloop
     runloop.r07i(ctx, rep, rule="R03m")
     from . import C18
